@@ -2,6 +2,7 @@ package props
 
 import (
 	"golang.org/x/tools/go/packages"
+	"golang.org/x/tools/go/ssa"
 
 	"fmt"
 	"go/ast"
@@ -47,7 +48,7 @@ func gateArity(p *load.Program) map[string]int {
 // C10levels: the level schedule of the GMW evaluation is consistent with how levels are assigned.
 func C10levels(p *load.Program, run *report.Run) {
 	canonFor(p)
-	run.Rule("gmw-level-schedule", "a gate's level is the maximum of the levels of all inputs that Gate.Inputs lists for its operation (the gate loop of AssignLevels interpreted per operation); under the GMW target the output of an AND gate gets a level above the gate's own (so no AND of a batch consumes another AND of the same batch), and run evaluates, per level, the non-AND gates before it flushes the AND batch of that level (an AND may consume a XOR of its own level, never the other way round)")
+	run.Rule("gmw-level-schedule", "Compiler.compile assigns the levels of every circuit it returns (run schedules by Gate.Level and never assigns it); a gate's level is the maximum of the levels of all inputs that Gate.Inputs lists for its operation (the gate loop of AssignLevels interpreted per operation); under the GMW target the output of an AND gate gets a level above the gate's own (so no AND of a batch consumes another AND of the same batch), and run evaluates, per level, the non-AND gates before it flushes the AND batch of that level (an AND may consume a XOR of its own level, never the other way round)")
 	pkgC := p.ByPath[load.Module+"/circuit"]
 	_, fa := dispatch.FindFunc(p, "circuit", "Circuit", "AssignLevels")
 	pkgG, fr := dispatch.FindFunc(p, "gmw", "Network", "run")
@@ -88,6 +89,58 @@ func C10levels(p *load.Program, run *report.Run) {
 				run.OK("gmw-level-schedule", key, p.Rel(clause.Pos()), fmt.Sprintf("output level +%d", lv.(int64)))
 			}
 		}
+	}
+	// (c) the circuits the compiler hands out have their levels assigned: gmw.Network.run schedules
+	// by Gate.Level and never assigns it
+	if fc, err := p.Method("compiler", "Compiler", "compile"); err != nil {
+		run.Undecided("gmw-level-schedule", "compiler.Compiler.compile/levels-assigned", "", err.Error())
+	} else {
+		var assigns []*ssa.BasicBlock
+		for _, b := range fc.Blocks {
+			for _, ins := range b.Instrs {
+				if c, ok := ins.(ssa.CallInstruction); ok {
+					if callee := c.Common().StaticCallee(); callee != nil && callee.Name() == "AssignLevels" {
+						assigns = append(assigns, b)
+					}
+				}
+			}
+		}
+		bad := ""
+		returns := 0
+		for _, b := range fc.Blocks {
+			if b == fc.Recover {
+				continue
+			}
+			r, ok := b.Instrs[len(b.Instrs)-1].(*ssa.Return)
+			if !ok {
+				continue
+			}
+			res := load.Results(r)
+			if len(res) == 0 {
+				continue
+			}
+			if c, isConst := res[0].(*ssa.Const); isConst && c.IsNil() {
+				continue // no circuit returned (error, or NoCircCompile)
+			}
+			returns++
+			dom := false
+			for _, a := range assigns {
+				if a == b || a.Dominates(b) {
+					dom = true
+				}
+			}
+			if !dom {
+				bad = "the compiler returns a circuit whose gate levels were never assigned: gmw.Network.run puts every gate on level 0, evaluates all XOR/XNOR/INV gates first and all AND gates in one batch, and every party returns the same wrong value without an error"
+			}
+		}
+		run.Count("circuit-returns", returns)
+		key := "compiler.Compiler.compile/levels-assigned"
+		if bad != "" {
+			run.Violate("gmw-level-schedule", key, p.Rel(fc.Pos()), bad, nil)
+		} else {
+			run.OK("gmw-level-schedule", key, p.Rel(fc.Pos()), fmt.Sprintf("%d circuit return(s) after AssignLevels", returns))
+		}
+		run.Floor("circuit-returns", 1)
 	}
 	// (a0) the level of a gate is the maximum over all of its inputs: the statements of the gate
 	// loop before the level is stored, interpreted per operation with the input levels (0,1), (1,0), (1,1)
